@@ -603,6 +603,10 @@ func genDecimalLit(r *rng) string {
 	case 1:
 		return digits(1+r.intn(17), true) + "." + digits(1+r.intn(17), false) // long numerals
 	case 2:
+		if r.chance(1, 6) {
+			// numerals around and beyond the largest double (309 digits): the value is the nearest double, then infinity
+			return digits(300+r.intn(120), true)
+		}
 		return digits(1+r.intn(20), true)
 	default:
 		return digits(1+r.intn(3), true) + "." + digits(1+r.intn(4), false)
